@@ -117,6 +117,18 @@ static void report(const op *O, const char *variant, long pos, const unsigned ch
     else vf_fail(key, "trace lengths differ (%llu vs %llu events): secret-dependent control flow", (unsigned long long) hb[2], (unsigned long long) hv[2]);
 }
 
+/* Poly1305 secrets built backwards (ref/gen_poly_cases.py): (key, message) pairs whose accumulator before the final reduction sits on limb
+ * boundaries, and keys whose r^2 / r^4 do - the values at which a "carry only if needed" shortcut would take a different path */
+static unsigned char *pc_data; static long pc_n; static size_t *pc_off;
+static void poly_cases_load(void)
+{
+    const char *path = getenv("VERIF_POLY_CASES"); FILE *f; long sz, i; size_t o; uint32_t n;
+    if (!path || !(f = fopen(path, "rb"))) { printf("INFO poly cases file not available\n"); return; }
+    fseek(f, 0, SEEK_END); sz = ftell(f); fseek(f, 0, SEEK_SET); pc_data = malloc((size_t) sz);
+    if (fread(pc_data, 1, (size_t) sz, f) != (size_t) sz) exit(2);
+    fclose(f); memcpy(&n, pc_data, 4); pc_n = (long) n; pc_off = malloc(sizeof(size_t) * (size_t) (pc_n + 1));
+    for (i = 0, o = 4; i < pc_n; i++) { pc_off[i] = o; o += 32 + 2 + (size_t) (pc_data[o + 32] | pc_data[o + 33] << 8) + 16 + 24; }
+}
 static void check_item(const op *O, size_t plen)
 {
     unsigned char base[512], var[512]; uint64_t hb[3], hv[3], hw[3]; int b; size_t i, j; static const unsigned char BV[3] = { 0x00, 0xff, 0x80 };
@@ -144,6 +156,8 @@ static void check_item(const op *O, size_t plen)
         for (i = 0; i < 8 * slen; i++) { memcpy(var, base, slen); var[i >> 3] ^= (unsigned char) (1u << (i & 7)); PAIR("bitflip", i); }
         for (i = 0; i < slen; i++) for (j = 0; j < 3; j++) { if (base[i] == BV[j]) continue; memcpy(var, base, slen); var[i] = BV[j]; PAIR(j == 0 ? "byte=00" : j == 1 ? "byte=ff" : "byte=80", i); }
         if (O->run == r_unpad) for (i = 0; i < 16; i++) { memcpy(var, base, slen); memset(var + 48, 0, 16); var[48 + i] = 0x80; PAIR("pad-position", i); }   /* every pad position in the last block */
+        if ((O->run == r_poly || O->run == r_poly_verify) && b == 2 && pc_n) { long k; for (k = 0; k < pc_n; k++) { const unsigned char *rec = pc_data + pc_off[k]; size_t len = (size_t) (rec[32] | rec[33] << 8);
+            if (len != plen) continue; memcpy(var, rec, 32); memcpy(var + 32, rec + 34, len); PAIR("built-backwards-case", k); } }
         { static const int OTHER[4] = { PAT_C, PAT_H, PAT_R2, PAT_R1 }; vf_pat(var, slen, OTHER[b], 1301); if (O->run == r_unpad) { memset(var + 48, 0, 16); var[50] = 0x80; } PAIR("other-pattern", b); }
 next_base:;
     }
@@ -187,6 +201,9 @@ int main(void)
         if (thorough) { for (l = (size_t) OPS[i].pub_lo; l <= (size_t) OPS[i].pub_hi; l++) { ITEMS[nitems].op = i; ITEMS[nitems++].plen = l; } }
         else for (l = 0; l < sizeof QL / sizeof QL[0]; l++) if (QL[l] <= (size_t) OPS[i].pub_hi) { ITEMS[nitems].op = i; ITEMS[nitems++].plen = QL[l]; }
     }
+    poly_cases_load();
+    if (pc_n && !thorough) for (i = 0; i < NOPS; i++) if (OPS[i].run == r_poly) { ITEMS[nitems].op = i; ITEMS[nitems++].plen = 80; ITEMS[nitems].op = i; ITEMS[nitems++].plen = 208; }   /* the other two lengths of the built-backwards cases */
+    if (pc_n && thorough) for (i = 0; i < NOPS; i++) if (OPS[i].run == r_poly) { ITEMS[nitems].op = i; ITEMS[nitems++].plen = 208; }
     vf_parallel(16, 0, nitems, do_item, fin);
     check_pad(); fin();
     vf_sample("crypto_scalarmult(X25519): base secret R1 vs R1 with bit 137 flipped, same public point: edge/load/store trace hashes must be equal");
